@@ -82,6 +82,15 @@ def make_env(name, shift=0):
         env = TradingEnv(BoxPortfolio(cs, -1.0, 1.5), state=feats, transmitter=tr, initial_cash=1000.0)
         actions = [np.array([0.5, 0.25]), np.array([-0.25, 1.0])]
         bad = np.array([9.0, 9.0])
+    elif name == "warm":
+        # a transmitter with a warm-up horizon of one timestep gap: a reset into the later fold replays the timestep before it
+        G = _days(datetime(2021, 3, 1) + timedelta(days=28 * shift), 6)
+        cs = [ETF("A"), ETF("B")]
+        tr = Transmitter(list(G), folds={"training-set": [G[0], G[-1]], "f2": [G[2], G[-1]]}, warmup=G[1] - G[0])
+        tr.add_events(bar_events(G, cs, base=50.0, spread=1.0, step=3.0))
+        env = TradingEnv(BoxPortfolio(cs, -1.0, 1.5), state=[FeaturePrices(cs)], transmitter=tr, initial_cash=1000.0)
+        actions = [np.array([0.5, 0.25]), np.array([-0.25, 1.0])]
+        bad = np.array([9.0, 9.0])
     elif name in ("fitA", "fitB"):
         # library features whose default scaler is FITTED (fit_transformers=True) on the feature's own bounds; the two
         # configurations differ in those bounds
@@ -410,7 +419,7 @@ def all_schedules(n):
 def run(tier, **kw):
     rep = Report("C10", tier, LEVEL)
     depth = 3 if tier == "quick" else 5
-    configs = ["etf2", "fees", "chain", "window", "disc", "holey", "defaults"]
+    configs = ["etf2", "fees", "chain", "window", "disc", "holey", "defaults", "warm"]
     hists = [h for d in range(depth + 1) for h in itertools.product(range(len(CALLS)), repeat=d)]
     units = []
     for name in configs:
